@@ -128,7 +128,10 @@ def merge(results):
         m["evaluations"] += int(r.get("evaluations", 0))
         m["nontrivial"].update(r.get("nontrivial", []))
         m["nontrivial_count"] += int(r.get("nontrivial_count", 0))
-        m["violations"].extend(r.get("violations", []))
+        for v in r.get("violations", []):
+            if isinstance(v, dict):
+                v.setdefault("_shard", r.get("shard"))
+            m["violations"].append(v)
         for k, v in r.get("counters", {}).items():
             m["counters"][k] = m["counters"].get(k, 0) + v
         for k, v in r.get("maxima", {}).items():
@@ -198,11 +201,15 @@ def write_evidence(prop, mod, tier, seed, m, wall, n_viol, known_seen, extra):
 # --------------------------------------------------------------------------
 
 
-def write_replay(prop, tier, seed, v):
+def write_replay(prop, tier, seed, v, specs=None):
     d = os.path.join(os.environ.get("LQV_REPLAY_DIR") or os.path.join(boot.ROOT, "replay"), prop)
     os.makedirs(d, exist_ok=True)
     rec = {"property": prop, "tier": tier, "seed": seed, "sig": v.get("sig"), "what": v.get("what"),
            "witness": v.get("witness")}
+    sh = v.get("_shard")
+    if specs is not None and isinstance(sh, int) and 0 <= sh < len(specs):
+        # the shard that observed it: the fall-back when the witness alone does not reproduce (history-dependent defects)
+        rec["shard_spec"] = {k: x for k, x in specs[sh].items() if k not in ("scratch", "shard_index")}
     path = os.path.join(d, digest(rec) + ".json")
     with open(path, "w") as f:
         json.dump(rec, f, indent=1, default=repr)
@@ -216,8 +223,22 @@ def do_replay(prop, mod, path):
     m = merge(results)
     known, _ = load_findings(prop)
     bad = [v for v in m["violations"] if v.get("sig") not in known]
+    if not bad and not m["inconclusive"] and rec.get("shard_spec"):
+        # the witness alone was silent: re-run the whole shard that observed it (same seed, same order)
+        timeout = getattr(mod, "SHARD_TIMEOUT", {"quick": 600, "thorough": 3600}).get(rec.get("tier", "quick"), 900)
+        m2 = merge(run_shards(prop, [dict(rec["shard_spec"])], 1, timeout))
+        seen = set()
+        for v in m2["violations"]:
+            if v.get("sig") not in known and v.get("sig") not in seen:
+                seen.add(v.get("sig"))
+                if v.get("sig") == rec.get("sig") or not bad:
+                    bad.append(v)
+                    m["violations"].append(v)
+        for r in m2["inconclusive"]:
+            if "crashed" in r or "watchdog" in r:
+                m["inconclusive"].append(r)
     for v in m["violations"]:
-        print("replayed: sig=%s %s" % (v.get("sig"), v.get("what")))
+        print("replayed: sig=%s %s" % (v.get("sig"), str(v.get("what"))[:1500]))
     if m["inconclusive"]:
         print("INCONCLUSIVE property=%s reason=%s" % (prop, "; ".join(m["inconclusive"])[:500]))
         return 2
@@ -284,7 +305,7 @@ def main(argv=None):
     if unlisted:
         for sig in sorted(unlisted, key=str):
             v = unlisted[sig][0]
-            path = write_replay(prop, a.tier, seed, v)
+            path = write_replay(prop, a.tier, seed, v, specs)
             print("VIOLATION property=%s replay=%s" % (prop, path))
             print("  sig=%s" % sig)
             print("  what=%s" % str(v.get("what"))[:1500])
